@@ -588,6 +588,56 @@ func init() {
 
 // --- R-SUBEVAL: subscript expressions are evaluated to a raw sequence ---------------------------
 
+// flagPermits: block b of fn can be reached from the functions of set, as far
+// as the bool parameters of fn tested on the way to b are concerned: a branch
+// that needs `unwrap == true` is dead when every call from the set passes the
+// constant false (directly or through a bool parameter of its own that is
+// constrained in the same way).
+func (p *Prog) flagPermits(fn *ssa.Function, b *ssa.BasicBlock, set map[*ssa.Function]bool, depth int) bool {
+	for _, f := range factsAt(b) {
+		q, ok := f.Cond.(*ssa.Parameter)
+		if !ok || q.Parent() != fn {
+			continue
+		}
+		if !p.argCanBe(fn, q, f.Truth, set, depth) {
+			return false
+		}
+	}
+	return true
+}
+
+func (p *Prog) argCanBe(fn *ssa.Function, q *ssa.Parameter, want bool, set map[*ssa.Function]bool, depth int) bool {
+	if depth > 3 {
+		return true
+	}
+	idx := paramIndex(q)
+	ncalls := 0
+	for caller := range set {
+		if caller.Blocks == nil {
+			continue
+		}
+		for _, c := range p.allCalls(caller) {
+			if c.Call.StaticCallee() != fn || idx >= len(c.Call.Args) {
+				continue
+			}
+			ncalls++
+			switch a := c.Call.Args[idx].(type) {
+			case *ssa.Const:
+				if a.Value != nil && (a.Value.ExactString() == "true") == want {
+					return true
+				}
+			case *ssa.Parameter:
+				if p.argCanBe(caller, a, want, set, depth+1) {
+					return true
+				}
+			default:
+				return true
+			}
+		}
+	}
+	return ncalls == 0
+}
+
 var ruleSubEval = &Rule{
 	Name: "R-SUBEVAL", NeedSSA: true,
 	Doc: "between the subscript executor and the node dispatcher no function flattens a result sequence (the idiom: applying a nil node to the elements of an array found in the sequence): the sequence whose length is tested for 'a single numeric value' is the raw result of the subscript expression, so `[$.one]` with one = [1] is an error in both modes",
@@ -605,7 +655,7 @@ var ruleSubEval = &Rule{
 				for _, ins := range b.Instrs {
 					if c, ok := ins.(*ssa.Call); ok && c.Call.StaticCallee() != nil && inModule(c.Call.StaticCallee()) && p.appliesNilNode(c) && p.pairKind(c.Call.StaticCallee().Signature) == "status" {
 						idiom++
-						if reach.Set[fn] {
+						if reach.Set[fn] && p.flagPermits(fn, b, reach.Set, 0) {
 							out.viol(fnName(fn)+" flattens a result sequence below the subscript executor", p.pos(c.Pos()), fnName(fn),
 								"a subscript value that is an array holding one number is unwrapped and used as an index instead of being rejected", reach.path(p, fn)...)
 						}
